@@ -208,10 +208,14 @@ def run(tier, seed):
     os.makedirs(wd)
     jobs, meta = [], {}
 
+    # option sets rotate over the cases: plain, with a listing (-l: every formatter and the data dump run on the
+    # same input), with another output type (the writers walk the image), with -optimize
+    OPTS = [[], ["-l"], ["-type", "elf"], ["-l", "-type", "srec"], ["-optimize"], ["-dump_symbols", "-dump_macros"]]
+
     def add(kind, key, src, files=None, args=None, to=20):
         cid = "j%d" % len(jobs)
         meta[cid] = (kind, key, src if isinstance(src, str) else repr(src[:200]))
-        jobs.append((exe, wd, cid, src, files or {}, args or [], to))
+        jobs.append((exe, wd, cid, src, files or {}, (args or []) + OPTS[len(jobs) % len(OPTS)], to))
     for c in lim:
         if c["len"] > 70000 and c["res"] not in ("repeat_count", "resb", "data_fill"):
             continue
